@@ -7,6 +7,18 @@ CHECKS = {
    technique="bounded-exhaustive input enumeration through the virtual wire into the real FSM (vrt runtime, default schedule) vs independent reference predicate",
    text="Every OPEN body of a finite, explicitly enumerated space (boundary product of all fixed fields x optional-parameter/capability layouts incl. length-octet mutations and truncations x configurations x both directions) is sent to the real, rewritten corebgp FSM over the virtual network and the observed reaction (KEEPALIVE/OnOpenMessage/Established or the single NOTIFICATION+EOF) is compared with an independent RFC-derived acceptability predicate with set-valued admissible reactions. Exhaustive inside the stated alphabets; says nothing about values outside them.",
    note="trusted: vinstr rewriting (validated by running the repository's tests on the rewritten package), vrt/vnet semantics, refmodel.JudgeOpen; default schedule only"),
+ "C08": dict(level="exploration", design="4/C08",
+   technique="bounded-exhaustive enumeration of faulty headers / segmentations / states through the virtual wire into the real FSM vs RFC 4271 6.1 reaction table",
+   text="Every single-octet marker corruption, every out-of-range length of a boundary set (all 65536 values are partitioned into <19, in range, >4096 with the boundaries and a stride sweep), every unknown type octet, at each of OpenSent/OpenConfirm/Established and both directions, preceded by well-formed messages that must take effect and followed by a well-formed UPDATE that must not, under several TCP segmentations (incl. 1-byte writes); plus every in-range UPDATE length in Established delivered byte-exact and every plugin-returned NOTIFICATION data length 0..4075 reaching the wire verbatim. One real FSM run per case under the deterministic runtime.",
+   note="trusted: vinstr/vrt/vnet, wire.ParseStrict; default schedule only; data of (1,1)/(1,2) not judged"),
+ "C09": dict(level="exploration", design="4/C09",
+   technique="exhaustive enumeration of the (state, message, direction) table and received NOTIFICATION/FIN/RST faults through the virtual wire into the real FSM",
+   text="All 3 states x {OPEN, UPDATE, KEEPALIVE} x 2 directions, received NOTIFICATIONs (codes 1-7 x subcodes x data lengths), FIN and RST also in mid-message: each cell is one real FSM run judged against the RFC 4271 8.2.2 / RFC 6608 table (legal progress, FSM error with state subcode and type octet, silent close), OnClose exactly once for Established cells. The table is finite and enumerated completely.",
+   note="trusted: vinstr/vrt/vnet; default schedule only"),
+ "C14": dict(level="exploration", design="4/C14",
+   technique="bounded-exhaustive enumeration of configurations and plugin capability lists; first message of each real connection parsed by an independent strict OPEN parser",
+   text="Product of boundary local AS / hold time / router id values with all capability lists up to depth 2 (quick) / 3 (thorough) over a code x length alphabet, totals around the 255-octet limits and unrepresentable lists, both connection directions; the OPEN the real FSM writes is parsed strictly (all four nested lengths) and compared field by field with the configuration.",
+   note="trusted: vinstr/vrt/vnet, wire.ParseOpenStrict; default schedule only"),
 }
 
 NOT_YET = "check not built yet (framework under construction; see DESIGN.md section 8)"
